@@ -171,6 +171,10 @@ func reachableFuncs(p *Prog, roots []*ssa.Function, followGo bool) map[*ssa.Func
 				if _, isGo := ci.(*ssa.Go); isGo && !followGo {
 					return
 				}
+				// the next writer / wrapped reader of the chain is another interceptor, not part of this one
+				if ci.Common().IsInvoke() && isChainIface(p, ci.Common().Value.Type()) {
+					return
+				}
 				for _, c := range p.Callees(ci) {
 					if p.InUniverse(c) && !out[c] {
 						out[c] = true
